@@ -16,25 +16,25 @@ Open Scope Z_scope.
    `selected` (comparisons and in/not_in never match NULL; NULLs in a value set are ignored; IN ()
    matches nothing; NOT IN () matches every non-NULL row; is_null / is_not_null are total). *)
 Theorem C12_compile_correct :
-  forall (X : value -> value -> bool) (E : cexpr -> row -> bool) (PA : list value -> bool) (e : fexpr) (ce : cexpr),
+  forall (X : value -> value -> bool) (E : cexpr -> row -> bool) (PA : parg -> bool) (e : fexpr) (ce : cexpr),
     compile PA e = Ok ce ->
     forall (r : row) (t : tv), eval3 X E ce r = Some t ->
       (t = TT <-> selected X (fop_ e) (cell r (fcol e)) (fsval e) (flval e) = true).
 Proof. exact compile_sound. Qed.
 Print Assumptions C12_compile_correct.
 
-(* ... and building it fails only when pa.array refuses a non-empty in / not_in value set. *)
+(* ... and building it fails only when pyarrow refuses the literal itself (pa.scalar of the comparison
+   value, pa.array of a non-empty in / not_in value set). *)
 Theorem C12_compile_total :
-  forall (PA : list value -> bool) (e : fexpr) (k : errk),
-    compile PA e = Err k ->
-    k = EBuild /\ (fop_ e = IN \/ fop_ e = NOT_IN) /\ not_none (flval e) <> [] /\ PA (not_none (flval e)) = false.
+  forall (PA : parg -> bool) (e : fexpr) (k : errk),
+    compile PA e = Err k -> k = EBuild /\ exists a, literal_of e = Some a /\ PA a = false.
 Proof. exact compile_err. Qed.
 Print Assumptions C12_compile_total.
 
 (* Conjunctions: the `&`-fold of to_pyarrow_compute_expression (REGENERATED) is TRUE on a row iff every
    conjunct's SQL predicate is TRUE. *)
 Theorem C12_conj :
-  forall (X : value -> value -> bool) (E : cexpr -> row -> bool) (PA : list value -> bool)
+  forall (X : value -> value -> bool) (E : cexpr -> row -> bool) (PA : parg -> bool)
          (es : list fexpr) (cs : list cexpr) (ce : cexpr),
     mapM (compile PA) es = Ok cs -> gen_fold cs = Some ce ->
     forall (r : row) (t : tv), eval3 X E ce r = Some t -> (t = TT <-> row_selected X es r = true).
@@ -46,7 +46,7 @@ Print Assumptions C12_conj.
    formed or not): scan with checksum verification on/off (parallel = the same map), scan_batches
    with any batching, iter_records. *)
 Theorem C12_api_agree :
-  forall (X : value -> value -> bool) (E : cexpr -> row -> bool) (PA : list value -> bool)
+  forall (X : value -> value -> bool) (E : cexpr -> row -> bool) (PA : parg -> bool)
          (sch : list Z) (ids : list (Z * Z)) (bounds : file -> list (Z * value) * list (Z * value))
          (split : list row -> list (list row)) (v : bool) (cols : option (list Z)) (flt : pyfilter) (files : list file),
     valid_cols sch cols -> (forall l, concat (split l) = l) ->
@@ -61,7 +61,7 @@ Print Assumptions C12_api_agree.
    filter is accepted, well shaped, and pyarrow does not refuse a row (pruning by the stored bounds
    included: C13). *)
 Theorem C12_api_sql :
-  forall (X : value -> value -> bool) (E : cexpr -> row -> bool) (PA : list value -> bool)
+  forall (X : value -> value -> bool) (E : cexpr -> row -> bool) (PA : parg -> bool)
          (sch : list Z) (ids : list (Z * Z)) (split : list row -> list (list row)) (v : bool)
          (cols : option (list Z)) (flt : pyfilter) (files : list file)
          (ps : list pexpr) (ce : option cexpr) (es : list fexpr),
@@ -80,7 +80,7 @@ Print Assumptions C12_api_sql.
 (* When pyarrow refuses a row of a file that is read (type error for a literal), the scan raises --
    and by C12_api_agree so does every other API. *)
 Theorem C12_refused_raises :
-  forall (X : value -> value -> bool) (E : cexpr -> row -> bool) (PA : list value -> bool)
+  forall (X : value -> value -> bool) (E : cexpr -> row -> bool) (PA : parg -> bool)
          (sch : list Z) (ids : list (Z * Z)) (bounds : file -> list (Z * value) * list (Z * value))
          (v : bool) (cols : option (list Z)) (flt : pyfilter) (files : list file)
          (ps : list pexpr) (e : cexpr) (f : file) (r : row),
@@ -102,7 +102,7 @@ Print Assumptions C12_strict.
 (* ... a filter rejected by the front end is rejected by every API on every table (the empty one and
    the all-pruned one included) ... *)
 Theorem C12_strict_everywhere :
-  forall (X : value -> value -> bool) (E : cexpr -> row -> bool) (PA : list value -> bool)
+  forall (X : value -> value -> bool) (E : cexpr -> row -> bool) (PA : parg -> bool)
          (sch : list Z) (ids : list (Z * Z)) (bounds : file -> list (Z * value) * list (Z * value))
          (flt : pyfilter) (k : errk),
     prepare PA flt = Err k ->
@@ -148,7 +148,7 @@ Print Assumptions C12_project_after.
    one row give the same; unknown operator and {"c": None} are parse errors. *)
 Definition ex_X (a b : value) : bool := py_eqb a b.
 Definition ex_E (_ : cexpr) (_ : row) : bool := false.
-Definition ex_PA (_ : list value) : bool := true.
+Definition ex_PA (_ : parg) : bool := true.
 Definition ex_sch : list Z := [0; 1].
 Definition ex_ids : list (Z * Z) := [(0, 1); (1, 2)].
 Definition ex_files : list file :=
